@@ -164,6 +164,32 @@ func ammoCases(rng *rand.Rand, n int) []Case {
 			out = append(out, Case{Kind: "ammo", Format: format, Mut: "no-entries+unbounded", Text: []byte(text)})
 		}
 	}
+	// entries that are well-formed for their format but are no request (a method with a blank in it,
+	// a URL that cannot be parsed) between two good ones, in every layout of http/json and in raw,
+	// with and without continueonerror and preloading: rejected or skipped, never a crash
+	for _, bad := range []string{`{"method": "BAD METHOD", "uri": "/x", "host": "h.example.org"}`, `{"method": "GET", "uri": "http://[::1", "host": "h.example.org"}`, `{"method": "GET", "uri": "/%zz", "host": "h"}`} {
+		good := `{"method": "GET", "uri": "/ok?vid=1", "host": "h.example.org", "tag": "t"}`
+		for layout, text := range map[string]string{
+			"lines": good + "\n" + bad + "\n" + good + "\n",
+			"array": "[" + good + ",\n" + bad + ",\n" + good + "]\n",
+			"array-bad-first": "[" + bad + ", " + good + "]",
+			"array-bad-only":  "[" + bad + "]",
+		} {
+			for _, pre := range []bool{false, true} {
+				for _, mut := range []string{"no-request-entry/" + layout, "no-request-entry/" + layout + "+continue-on-error"} {
+					out = append(out, Case{Kind: "ammo", Format: "jsonline", Mut: mut, Text: []byte(text), Preload: pre})
+				}
+			}
+		}
+	}
+	for _, pre := range []bool{false, true} {
+		for _, mut := range []string{"no-request-entry/raw", "no-request-entry/raw+continue-on-error"} {
+			g := "GET /ok HTTP/1.1\r\nHost: h.example.org\r\n\r\n"
+			b := "BAD METHOD /x HTTP/1.1\r\nHost: h\r\n\r\n"
+			out = append(out, Case{Kind: "ammo", Format: "raw", Mut: mut, Preload: pre,
+				Text: []byte(fmt.Sprintf("%d t\n%s\n%d t\n%s\n%d t\n%s\n", len(g), g, len(b), b, len(g), g))})
+		}
+	}
 	// files made of nothing but degenerate entries — zero-sized blocks, empty objects, lines that
 	// hold a size or a tag and nothing else — read with passes: 0 and with passes: 1, with and
 	// without preloading: whether such an entry is refused or handed on, the provider must not
